@@ -109,3 +109,42 @@ void h_assemble_internal(void) { OS_GHOST_INIT
     REACH("internal step failure");
   }
 }
+
+/* C08: the counting and the fitting step on the library-managed buffer (chunk size symbolic: the
+ * claims here do not depend on the chunk arithmetic).  The fitting step checks room again after
+ * padding; every write must go through the buffer pointer re-read after that check. */
+#define INTERNAL_COMMON OS_GHOST_INIT \
+  struct assemblyline A; assemblyline_t al = &A; struct instr I; unsigned p; \
+  int n; __CPROVER_assume(n >= BUFFER_TOLERANCE && n <= 60000); \
+  A.external = 0; A.buffer_len = n; A.buffer = malloc(n); __CPROVER_assume(A.buffer != NULL); A.debug = 0; \
+  __CPROVER_assume(A.chunk_size >= 2); \
+  __CPROVER_assume(p <= (unsigned)n && rec_inv(&I)); __CPROVER_assume(1 <= g_asm_len && g_asm_len <= BUFFER_TOLERANCE); \
+  __CPROVER_assume(g_probe < p); uint8_t before = A.buffer[g_probe]; unsigned p0 = p;
+void h_counting_internal(void) { INTERNAL_COMMON int cnt; __CPROVER_assume(cnt >= 0 && cnt < 1000);
+  int rc = assemble_counting_chunks(al, &I, &p, &cnt);
+  if (rc == EXIT_SUCCESS) {
+    CHECK(p == p0 + g_asm_len && p <= (unsigned)A.buffer_len, "position advances by the instruction length inside the (possibly grown) buffer");
+    CHECK(A.buffer[g_probe] == before, "earlier bytes are preserved across growth");
+    REACH("internal counting step success");
+  } else {
+    CHECK(g_fault, "on the library-managed buffer a step fails only when the OS refuses to grow it");
+    CHECK(p == p0 && A.buffer[g_probe] == before && A.buffer_len == n, "a failed step leaves position, length and earlier bytes intact");
+    REACH("internal counting step failure");
+  }
+}
+#ifndef FITC
+#define FITC 16
+#endif
+void h_fitting_internal(void) { INTERNAL_COMMON
+  __CPROVER_assume(A.chunk_size == FITC);     /* division by a symbolic chunk size does not close: enumerated */
+  int rc = assemble_with_chunk_fitting(al, &I, &p);
+  CHECK(A.buffer[g_probe] == before, "earlier bytes are preserved across growth and padding");
+  CHECK(p <= (unsigned)A.buffer_len, "the position stays inside the (possibly grown) buffer");
+  if (rc == EXIT_SUCCESS) {
+    CHECK(p >= p0 + g_asm_len && p - p0 < 2 * BUFFER_TOLERANCE, "the instruction is placed at or behind the old position");
+    REACH("internal fitting step success");
+  } else {
+    CHECK(g_fault, "on the library-managed buffer a step fails only when the OS refuses to grow it");
+    REACH("internal fitting step failure");
+  }
+}
